@@ -96,7 +96,7 @@ PROPS = {
     },
     "C14": {
         "lean_modules": ["Cachelito.Props.C14"],
-        "streams": [macro_stream(nontrivial=["c14-shared-hit", "call"])],
+        "streams": [macro_stream(nontrivial=["c14-shared-hit", "call"]), hammer_stream()],
         "monitors": ["C14"],
         "rule": "call histories distributed over 3 real threads (thread-scope functions called on any of them, global/async functions too); non-trivial = any call (every call checks the frame: no other instance changes) ",
         "level_text": "Lean theorems: a call of a thread-scope function changes only the calling thread's instance (all other instances equal), the state and outputs of a thread are determined by its own sub-history (interleaving independence), a thread is never served another thread's value; global/async functions have one instance whatever the calling thread, and a stored, unexpired key is a hit for any thread. Tied to the code with real OS threads and per-thread dumps.",
@@ -197,7 +197,7 @@ PROPS = {
         "technique": TECH, "design_ref": "DESIGN.md §7 C11", "assumptions": [],
     },
     "C12": {
-        "lean_modules": ["Cachelito.Props.C12"],
+        "lean_modules": ["Cachelito.Props.C12", "Cachelito.Props.C12r"],
         "streams": [macro_stream(nontrivial=["group-invalidation-hit"]), reg_stream()],
         "monitors": ["C12"],
         "rule": "episodes over 4 real generated functions drawn from a corpus with random tag/event/dependency/name metadata (sync and async mixed, name overrides), requests including undeclared names; non-trivial = a group invalidation that matched at least one registered cache",
@@ -206,7 +206,7 @@ PROPS = {
         "technique": TECH, "design_ref": "DESIGN.md §7 C12", "assumptions": ["distinct cache names"],
     },
     "C13": {
-        "lean_modules": ["Cachelito.Props.C13"],
+        "lean_modules": ["Cachelito.Props.C13", "Cachelito.Props.C12r"],
         "streams": [macro_stream(nontrivial=["conditional-invalidation-removed", "group-invalidation-hit"]), reg_stream()],
         "monitors": ["C13"],
         "rule": "episodes with invalidate_with / invalidate_all_with over random subsets of the stored keys and group invalidations, followed by further overflow histories; non-trivial = an invalidation that removed something",
